@@ -194,7 +194,7 @@ CLAIMED = {
              "verdict is invariant under permuting each declaration list (Perm.nodup_iff; for the C set via congruence of the layout under unique "
              "type names). Tie: schema trees built directly as FcpV2 objects (exhaustive small scope in the thorough tier) x 3 check sets x permuted "
              "twin, real verdict and first failing rule against the model.",
-        note="Trees with cyclic struct references (hand-built only) are skipped; error rule is read from the message text.",
+        note="Trees with cyclic struct references (hand-built only) are skipped; which rule fails first is read from the message text and only recorded in the evidence (the property is about the verdict).",
         technique="Lean 4 proof (decision logic = decidable specification, permutation invariance) + exhaustive small-scope correspondence",
         ref="DESIGN.md section 8, C09"),
     "C19": dict(
